@@ -259,6 +259,7 @@ func init() {
 		Rule: "every type of the reflect-built grammar TYPE(d) (d=2 quick: 33 leaves x 24 constructors + hand-written shapes; d=3 thorough over 6 representative leaves) x every value of the boundary set VAL(T) " +
 			"(ints 0,+-1,min,max; floats +-0,1,1e21,1e-7,5e-324,Max,NaN,+-Inf; strings with quotes/HTML/invalid UTF-8/NUL; containers nil/empty/1/3; pointers nil/set; interfaces nil/each dynamic kind; struct fields varied one at a time), " +
 			"by value and through a pointer; ConfigStd.Marshal vs encoding/json.Marshal: errors coincide, token sequences equal with number literals byte-identical and string literals equal by denotation. " +
+			"Component part: the real map-key sorter (radix quicksort / heapsort fallback / insertion sort / ninther pivot) driven with a chosen input order (through Marshal the order is Go's random map iteration): 6 key families x common prefix 0..24 bytes x 0..48 keys x {every permutation up to 7 keys (9 thorough); all rotations, transpositions, organ-pipe and stride interleavings and their reversals above}: output sorted, values still paired. " +
 			"distinct_nontrivial = distinct (type, value, addressability) cases on which at least one side produced output",
 		Assume: []string{"encoding/json is the reference", "the comparison tokenizer is encoding/json's Decoder.Token with UseNumber"},
 		Run: func(c *ev.Ctx, r *ev.Report) {
@@ -293,8 +294,12 @@ func init() {
 				return true
 			})
 			r.Distinct = int64(len(seen))
+			c03sorter(c, r)
 		},
 		Replay: func(c *ev.Ctx, desc json.RawMessage) *ev.Violation {
+			if v, ok := c03sortReplay(desc); ok {
+				return v
+			}
 			var cs c03case
 			json.Unmarshal(desc, &cs)
 			types := gen.Types(cs.Depth)
